@@ -99,8 +99,10 @@ def client() -> RefClient:
     if _CLIENT is not None and os.getpid() != _CLIENT.owner:
         return _CLIENT  # inherited through fork: only the creating process may poll it
     if _CLIENT is None or _CLIENT.proc.poll() is not None:
+        # deterministic given this process tree's own hash seed, so a replay under the same PYTHONHASHSEED meets the
+        # same pair of string-hash seeds
         own = os.environ.get("PYTHONHASHSEED", "random")
-        hs = (os.getpid() % 4093) + 1
+        hs = (int(own) * 7919 + 1) % 4294967295 if own.isdigit() else 1
         if str(hs) == own:
             hs += 1
         _CLIENT = RefClient(hs)
